@@ -23,18 +23,19 @@ for l in sys.stdin:
     except Exception: continue
     if e.get('Action')=='pass' and e.get('Test'): ok.add(e['Package']+'::'+e['Test'])
 print('\n'.join(sorted(ok)))"; }
-demos=$(ls "$src"/*_test.go 2>/dev/null)
+demos=$(find "$src" -name "*_test.go" | sort)
 [ -z "$demos" ] && { echo "NO-DEMO-TEST in $src"; exit 5; }
 passing > /tmp/confirm-$$.before
+mkdir -p "$demopkg"
 cp $demos "$demopkg/"
 names=$(grep -ho '^func Test[A-Za-z0-9_]*' $demos | sed 's/func //' | paste -sd'|')
-go test -vet=off -count=1 -run "^($names)\$" "./$demopkg" > /tmp/confirm-$$.d0 2>&1; d0=$?
+go test ${TAGS:+-tags $TAGS} -vet=off -count=1 -run "^($names)\$" "./$demopkg" > /tmp/confirm-$$.d0 2>&1; d0=$?
 for f in $demos; do rm "$demopkg/$(basename $f)"; done
 git apply "$src/patch.diff" || { echo "PATCH-DOES-NOT-APPLY"; exit 4; }
 go build $pkgs > /tmp/confirm-$$.build 2>&1 || { echo "BUILD-FAILS-WITH-PATCH"; tail -5 /tmp/confirm-$$.build; exit 6; }
 passing > /tmp/confirm-$$.after
 cp $demos "$demopkg/"
-go test -vet=off -count=1 -run "^($names)\$" "./$demopkg" > /tmp/confirm-$$.d1 2>&1; d1=$?
+go test ${TAGS:+-tags $TAGS} -vet=off -count=1 -run "^($names)\$" "./$demopkg" > /tmp/confirm-$$.d1 2>&1; d1=$?
 lost=$(comm -23 /tmp/confirm-$$.before /tmp/confirm-$$.after | wc -l)
 nb=$(wc -l < /tmp/confirm-$$.before)
 echo "demo_without_patch_exit=$d0 demo_with_patch_exit=$d1 existing_tests_passing_before=$nb lost_with_patch=$lost"
